@@ -41,8 +41,9 @@ contract(CM + 'update_all_cluster_statistics', props=['C12', 'C13', 'C09', 'C19'
          params=dict(model='obj:ModelState', training_data='arr2[real]'), returns='obj:ModelState',
          requires=["wf(model)", "len(model._point_labels) == training_data.shape[0]",
                    ("typestate:fresh-labelling-or-repopulated", "model._phase == 0 or model._phase == 1 or model._phase == 4"),
-                   # every cluster owns at least one point (the phase before -- repopulation -- guarantees >= 2 from round 2 on)
-                   "forall(0, len(model.clusters), lambda k: len(model.clusters[k]._member_points) > 0)"],
+                   # every cluster owns at least one point: update_cluster_member_data_statistics asserts it, so a run in which it
+                   # fails does not complete (size accounting after repopulation is covered by the bounded check of C08)
+                   ("completes:every-cluster-owns-a-point", "forall(0, len(model.clusters), lambda k: len(model.clusters[k]._member_points) > 0)")],
          ghost={'kind:cluster_members': 'pdict[int]', 'cumulative_posts': True},
          ensures=["fresh(result)", "fresh(result.clusters)", "len(result.clusters) == len(model.clusters)",
                   "same(result._point_labels, model._point_labels)", "same(result.arguments, model.arguments)",
